@@ -95,6 +95,17 @@ def run_variant(v):
     return out
 
 
+def run_variant_for(arg):
+    """run one variant against a single property (used by the thorough tier of that property)"""
+    v, pid = arg
+    v2 = dict(v)
+    v2['properties'] = [pid]
+    r = run_variant(v2)
+    if v['kind'] == 'mutant' and v.get('property') != pid and r.get('status') == 'missed':
+        r['status'] = 'not-this-property'
+    return r
+
+
 def main(argv, tier='quick'):
     corpus = load_corpus()
     only = [a for a in argv if not a.startswith('-')]
